@@ -44,10 +44,25 @@ spec fn lasts_kept(s: Seq<KeyValuePair>, o: Seq<KeyValuePair>, m: Seq<int>) -> b
     forall|j: int| 0 <= j < o.len() && #[trigger] is_last(o, j) ==> m.contains(j)
 }
 
+// std::collections::HashSet<Vec<u8>> as a set of byte strings (ASSUMED: std's contract; keys compare by content)
+#[verifier::external_body]
+struct KeySet { _p: u8 }
+impl KeySet {
+    uninterp spec fn view(&self) -> Set<Seq<u8>>;
+    #[verifier::external_body]
+    fn with_capacity(n: usize) -> (r: KeySet) ensures r@ == Set::<Seq<u8>>::empty() { unimplemented!() }
+    // `seen.insert(key.clone())`: true iff the key was not yet in the set
+    #[verifier::external_body]
+    fn insert_key(&mut self, key: &Vec<u8>) -> (r: bool)
+        ensures r == !old(self)@.contains(key@), final(self)@ == old(self)@.insert(key@),
+    { unimplemented!() }
+}
+
 impl WriteBatch {
 //@ extract lsmtk/src/kvs/mod.rs | impl WriteBatch :: fn retain_last_write_per_key
 //@ optional
-//@ rewrite-re X9 `self\.entries\[(\w+)\]\.key == self\.entries\[(\w+)\]\.key` => `bytes_eq(self.entries[\1].key.as_slice(), self.entries[\2].key.as_slice())`
+//@ rewrite X7 `let mut seen: HashSet<Vec<u8>> = HashSet::with_capacity(self.entries.len());` => `let mut seen = KeySet::with_capacity(self.entries.len());`
+//@ rewrite-re X7 `seen\.insert\(self\.entries\[(\w+)\]\.key\.clone\(\)\)` => `seen.insert_key(&self.entries[\1].key)`
 //@ post <<
         last_writes(final(self).entries@, old(self).entries@),
 //@ >>
@@ -59,42 +74,61 @@ impl WriteBatch {
 //@ loop 0 <<
             invariant
                 idx <= self.entries@.len(), embeds(self.entries@, o, m), lasts_kept(self.entries@, o, m),
-                /* contract-inv */ forall|i: int, j: int| 0 <= i < j < self.entries@.len() && idx <= j ==> self.entries@[i].key@ != self.entries@[j].key@,
+                // the keys seen so far are exactly the keys at idx and behind, and those are pairwise distinct
+                /* contract-inv */ forall|k: Seq<u8>| #[trigger] seen@.contains(k) <==> exists|i: int| idx <= i < self.entries@.len() && (#[trigger] self.entries@[i]).key@ == k,
+                /* contract-inv */ forall|i: int, j: int| idx <= i < j < self.entries@.len() ==> self.entries@[i].key@ != self.entries@[j].key@,
             decreases idx,
 //@ >>
-//@ startloop 0 <<
-            let ghost idx0 = idx;
+//@ before `seen.insert_key(&self.entries[idx].key)` <<
+            let ghost s0 = self.entries@;
+            let ghost m0 = m;
+            let ghost seen0 = seen@;
 //@ >>
-//@ loop 1 <<
-                invariant
-                    idx < idx0, earlier <= idx < self.entries@.len(), embeds(self.entries@, o, m), lasts_kept(self.entries@, o, m),
-                    /* contract-inv */ forall|i: int, j: int| 0 <= i < j < self.entries@.len() && idx < j ==> self.entries@[i].key@ != self.entries@[j].key@,
-                    /* contract-inv */ forall|i: int| earlier <= i < idx ==> self.entries@[i].key@ != self.entries@[idx as int].key@,
-                decreases earlier,
+//@ before `self.entries.remove(idx);` <<
+                proof {
+                    // the key at idx has been seen: some later entry writes it, so this one is not a last write of o
+                    let w = choose|w: int| idx + 1 <= w < s0.len() && (#[trigger] s0[w]).key@ == s0[idx as int].key@;
+                    m = m0.remove(idx as int);
+                    assert(m0[idx as int] < m0[w]);
+                    assert(!is_last(o, m0[idx as int])) by { assert(o[m0[w]].key@ == o[m0[idx as int]].key@); }
+                    assert forall|j: int| 0 <= j < o.len() && #[trigger] is_last(o, j) implies m.contains(j) by {
+                        let z = choose|z: int| 0 <= z < m0.len() && m0[z] == j;
+                        if z < idx { assert(m[z] == j); } else { assert(z != idx); assert(m[z - 1] == j); }
+                    }
+                }
 //@ >>
-//@ before `self.entries.remove(earlier);` <<
-                    let ghost s0 = self.entries@;
-                    let ghost m0 = m;
-                    proof {
-                        m = m0.remove(earlier as int);
-                        // the entry at `earlier` is followed (at idx) by a write to the same key: it is not a last write of o
-                        assert(m0[earlier as int] < m0[idx as int]);
-                        assert(!is_last(o, m0[earlier as int])) by { assert(o[m0[idx as int]].key@ == o[m0[earlier as int]].key@); }
-                        assert forall|j: int| 0 <= j < o.len() && #[trigger] is_last(o, j) implies m.contains(j) by {
-                            let w = choose|w: int| 0 <= w < m0.len() && m0[w] == j;
-                            if w < earlier { assert(m[w] == j); } else { assert(w != earlier); assert(m[w - 1] == j); }
+//@ after `self.entries.remove(idx);` <<
+                proof {
+                    assert(self.entries@ =~= s0.remove(idx as int));
+                    assert(embeds(self.entries@, o, m));
+                    // what lies at idx and behind is what lay behind idx before
+                    assert forall|k: Seq<u8>| #[trigger] seen@.contains(k) <==> exists|i: int| idx <= i < self.entries@.len() && (#[trigger] self.entries@[i]).key@ == k by {
+                        if seen@.contains(k) {
+                            let i0 = choose|i: int| idx + 1 <= i < s0.len() && (#[trigger] s0[i]).key@ == k;
+                            assert(self.entries@[i0 - 1] == s0[i0]);
+                        }
+                        if exists|i: int| idx <= i < self.entries@.len() && (#[trigger] self.entries@[i]).key@ == k {
+                            let i1 = choose|i: int| idx <= i < self.entries@.len() && (#[trigger] self.entries@[i]).key@ == k;
+                            assert(s0[i1 + 1] == self.entries@[i1]);
                         }
                     }
+                }
 //@ >>
-//@ after `self.entries.remove(earlier);` <<
-                    proof {
-                        assert(self.entries@ =~= s0.remove(earlier as int));
-                        assert(embeds(self.entries@, o, m));
+//@ endloop 0 <<
+            proof {
+                if self.entries@ == s0 {
+                    // kept: the key at idx was new
+                    assert forall|k: Seq<u8>| #[trigger] seen@.contains(k) <==> exists|i: int| idx <= i < self.entries@.len() && (#[trigger] self.entries@[i]).key@ == k by {
+                        if seen@.contains(k) && k != s0[idx as int].key@ { let i0 = choose|i: int| idx + 1 <= i < s0.len() && (#[trigger] s0[i]).key@ == k; }
+                        if k == s0[idx as int].key@ { assert(s0[idx as int].key@ == k); }
                     }
+                }
+            }
 //@ >>
 //@ afterloop 0 <<
         proof {
             let s = self.entries@;
+            assert(keys_distinct(s));
             assert forall|i: int| 0 <= i < s.len() implies o.contains(#[trigger] s[i]) by { assert(s[i] == o[m[i]]); }
             assert forall|j: int| 0 <= j < o.len() && #[trigger] is_last(o, j) implies s.contains(o[j]) by {
                 let w = choose|w: int| 0 <= w < m.len() && m[w] == j;
